@@ -552,6 +552,7 @@ def focused_docs() -> list[tuple[str, dict]]:
         )
     )
     docs += allof_required_docs()
+    docs += zero_bound_docs()
     # integer bounds that are exact as integers and not as doubles, and the edges of int64
     big = {"lo53": {"type": "integer", "minimum": 2**53 + 1}, "hi63": {"type": "integer", "maximum": 2**63 - 1}, "hi53": {"type": "integer", "maximum": 2**53 + 3}, "neg": {"type": "integer", "minimum": -(2**53) - 1}, "both": {"type": "integer", "minimum": 2**53 + 1, "maximum": 2**53 + 5}}
     docs.append(("big_integer_bounds", {"title": "Model", "type": "object", "properties": big, "required": list(big)}))
@@ -575,6 +576,34 @@ def focused_docs() -> list[tuple[str, dict]]:
         )
     )
     return docs
+
+
+ZERO_LEAVES: dict[str, dict] = {
+    "xmin0": {"type": "number", "exclusiveMinimum": 0},
+    "xmax0": {"type": "integer", "exclusiveMaximum": 0},
+    "min0": {"type": "number", "minimum": 0},
+    "max0": {"type": "integer", "maximum": 0},
+    "maxLen0": {"type": "string", "maxLength": 0},
+    "minLen0": {"type": "string", "minLength": 0},
+    "maxItems0": {"type": "array", "items": {"type": "integer"}, "maxItems": 0},
+    "minItems0": {"type": "array", "items": {"type": "integer"}, "minItems": 0},
+}
+
+
+def zero_bound_docs() -> list[tuple[str, dict]]:
+    """the boundary value 0 of EVERY bound keyword (a value that is falsy in Python: `if bound:` / `bound not in
+    {None, False}` are the classic ways to lose it) at every kind of place: member and `additionalProperties` value,
+    array item, union alternative (scalars: an array with item counts as a union alternative is D31u)"""
+    Z = ZERO_LEAVES
+    scal = {k: v for k, v in Z.items() if v["type"] != "array"}
+    return [
+        (
+            "zero_bounds_member_apvalue",
+            {"title": "Model", "type": "object", "properties": {**Z, **{f"d_{k}": {"type": "object", "additionalProperties": v} for k, v in scal.items()}}, "required": list(Z)},
+        ),
+        ("zero_bounds_array_item", {"title": "Model", "type": "object", "properties": {k: {"type": "array", "items": v} for k, v in Z.items()}, "required": list(Z)}),
+        ("zero_bounds_union_alt", {"title": "Model", "type": "object", "properties": {k: {"anyOf": [v, {"type": "boolean"}]} for k, v in scal.items()}, "required": list(scal)}),
+    ]
 
 
 def allof_required_docs() -> list[tuple[str, dict]]:
